@@ -170,7 +170,8 @@ def run_config(cfg, model=None):
                 training_config=USER_TRAINING_CONFIG if cfg.get("max_epochs") is None else
                 dict(max_epochs=cfg["max_epochs"], patience=5, batch_size=50),
                 training_frequency=cfg.get("training_frequency", 50), maximum_uninformed=cfg.get("maximum_uninformed", 50),
-                poolsize=cfg.get("poolsize", 100), cooldown=25, **common)
+                cooldown=25, **({} if cfg.get("poolsize", 100) is None else {"poolsize": cfg.get("poolsize", 100)}),
+                **({"latent_prior": cfg["latent_prior"]} if cfg.get("latent_prior") else {}), **cfg.get("extra", {}), **common)
             fs.run(plot=False, save=False)
             ns = fs.ns
             d = digest_arrays(fs.nested_samples, fs.log_evidence, ns.state.log_posterior_weights,
